@@ -78,3 +78,14 @@ Theorem C05_one_seat_majority_wins_wigm_partial : forall A S (ZL : zlike A S) cf
   forall c, In c (cands s) -> cid c = m -> cst c = Elected.
 Proof. exact (fun A S ZL cfg _ => count_majority_wigm A S ZL cfg). Qed.
 Print Assumptions C05_one_seat_majority_wins_wigm_partial.
+
+(* ... for every ballot file the reader accepts (no equal-rank ballots; [p_eligible] = the candidates that are not withdrawn) *)
+From Droop Require Import Model.Profile Model.EndToEnd Proofs.EndToEndLink.
+Theorem C05_one_seat_majority_wins_scotland_for_every_accepted_file : forall A S (ZL : zlike A S) cfg,
+  exact A = false -> cf_nseats cfg = 1 ->
+  forall text p m fuel s k, parse_file text = Ok p -> p_linesEq p = [] -> cf_nballots cfg = p_nBallots p ->
+  In m (p_eligible p) -> p_nBallots p < 2 * first_prefs (to_count_profile p) m ->
+  exec (@crashed A) fuel (count_cmd A cfg RScotland) (init_state A cfg (to_count_profile p)) = Some (s, k) -> k <> Abort ->
+  forall c, In c (State.cands s) -> cid c = m -> cst c = Elected.
+Proof. exact accepted_majority_scotland. Qed.
+Print Assumptions C05_one_seat_majority_wins_scotland_for_every_accepted_file.
